@@ -4,6 +4,7 @@ import EupsModel.Model.CondPinned
 import EupsModel.Lemmas.TableBlocks
 import EupsModel.Lemmas.TableText
 import EupsModel.Lemmas.TableLegacy
+import EupsModel.Lemmas.TableLegacyOld
 import EupsModel.Lemmas.TableArgs
 import EupsModel.Lemmas.TableWritten
 /-! C11 — table files mean what they say.  Property theorems only: the specification side is in
@@ -266,6 +267,43 @@ example : legacyText legacyPre legacyGroups true = Str.ofString
   decide +kernel
 example : legacyAsIfText legacyPre legacyGroups true = Str.ofString
     "envSet(A, 1)  # always\nif (FLAVOR == Linux || FLAVOR == Linux64) {\nenvSet(B, 2)\nenvSet(C, 3)\n}\nif (FLAVOR == Darwin) {\nenvSet(B, 4)\n}\n" := by
+  decide +kernel
+
+/-- **C11_legacy_groups_old (`Group:` … `End:`).**  For every old-style table text — an optional header
+`File = Table` / `Product = …`, lines outside any group, then groups `Group:` / one or more `Flavor = f` (`ANY`
+included) / optionally `Qualifiers = "…"` / `Common:` / optionally `Action = setup` / the lines of the group /
+`End:`, keywords in any letter case, with blanks, indentation and trailing comments — `_rewrite` produces exactly
+the lines of the table with every group written as `if (FLAVOR == f1 || …) {` … `}` (and no header); hence the same
+`Table.actions` for both texts. -/
+theorem C11_legacy_groups_old (h : Option OHeader) (pre : List Str) (gs : List OGroup) (nl : Bool)
+    (hh : ∀ x, h = some x → x.ok = true) (hpre : pre.all passesLine = true) (hgs : gs.all OGroup.ok = true) :
+    rewrite (oldLegacyText h pre gs nl) = rewrite (oldLegacyAsIfText pre gs nl) ∧
+    ∀ (v : Variant) (pdir : Option Str) (env : Env),
+      tableActions v pdir env (oldLegacyText h pre gs nl) = tableActions v pdir env (oldLegacyAsIfText pre gs nl) := by
+  have e : rewrite (oldLegacyText h pre gs nl) = rewrite (oldLegacyAsIfText pre gs nl) := by
+    rw [rewrite_old_legacy h pre gs nl hh hpre hgs, rewrite_old_asIf pre gs nl hpre hgs]
+  exact ⟨e, fun v pdir env => by simp only [tableActions, parse, e]⟩
+
+def oldHeader : OHeader :=
+  ⟨⟨⟨[], []⟩, Str.ofString "FILE", [], [], Str.ofString "table", []⟩,
+   ⟨⟨[], []⟩, Str.ofString "Product", [32], [32], Str.ofString "foo", []⟩⟩
+def oldGroups : List OGroup :=
+  [ { group := ⟨⟨[], []⟩, Str.ofString "Group:", []⟩,
+      f := ⟨⟨[32, 32], []⟩, Str.ofString "Flavor", [32], [32], Str.ofString "Linux", []⟩,
+      more := [⟨⟨[32, 32], []⟩, Str.ofString "FLAVOR", [], [], Str.ofString "ANY", []⟩],
+      qual := some ⟨⟨[32, 32], []⟩, Str.ofString "Qualifiers", [32], [32], Str.ofString "\"\"", []⟩,
+      common := ⟨⟨[], []⟩, Str.ofString "COMMON:", [32]⟩,
+      action := some ⟨⟨[32, 32], []⟩, Str.ofString "Action", [32], [32], Str.ofString "Setup", []⟩,
+      body := [Str.ofString "    envSet(B, 2)  # two"],
+      end_ := ⟨⟨[], []⟩, Str.ofString "End:", []⟩,
+      after := [Str.ofString "print(bye)"] } ]
+
+example : oldHeader.ok = true ∧ oldGroups.all OGroup.ok = true := by decide +kernel
+example : oldLegacyText (some oldHeader) [Str.ofString "envSet(A, 1)"] oldGroups true = Str.ofString
+    "FILE=table\nProduct = foo\nenvSet(A, 1)\nGroup:\n  Flavor = Linux\n  FLAVOR=ANY\n  Qualifiers = \"\"\nCOMMON: \n  Action = Setup\n    envSet(B, 2)  # two\nEnd:\nprint(bye)\n" := by
+  decide +kernel
+example : oldLegacyAsIfText [Str.ofString "envSet(A, 1)"] oldGroups true = Str.ofString
+    "envSet(A, 1)\nif (FLAVOR == Linux || FLAVOR =~ .*) {\nenvSet(B, 2)  \n}\nprint(bye)\n" := by
   decide +kernel
 
 /-! ## arguments -/
